@@ -64,9 +64,9 @@ def run_property(prop, tier, seed, replay_file=None):
             ex = EXTRA[name[6:]]
             c = dict(E.DEFAULTS)
             c.update(ex["cfg"])
-            behs = ex["behaviours"]
+            behs = ex["behaviours"] * ex.get("repeat", 1)
             trace, st = E.replay(behs, c, prop + "-" + name[6:], seed)
-            viols, consumed = E.validate(trace, prop + "-" + name[6:], parts=2)
+            viols, consumed = E.validate(trace, prop + "-" + name[6:], parts=1 if ex.get("repeat") else 2)
             new, listed = E.classify(viols, prop, known)
             tot["behaviours"] += len(behs)
             tot["runs"] += consumed
